@@ -562,6 +562,32 @@ class Rewriter:
         self.note('match-on-str-literal->if-chain', n)
         return code
 
+    # ---- R4a: OPT.is_some_and(|v| v.iter().any(|c| P))  ->  vx::opt_vec_any(OPT, |c| P)   (same for all)
+    def is_some_and_nested(self, code):
+        n = 0
+        while True:
+            m = mask(code)
+            mm = re.search(r'\.\s*is_some_and\s*\(\s*\|\s*([a-z_][a-z0-9_]*)\s*\|\s*\1\s*\.\s*iter\s*\(\s*\)\s*\.\s*(any|all)\s*\(', m)
+            if not mm:
+                break
+            dot = mm.start()
+            inner_op = mm.end() - 1
+            inner_cp = match_close(m, inner_op)
+            outer_op = m.index('(', dot)
+            outer_cp = match_close(m, outer_op)
+            rs = recv_start(m, dot)
+            recv = code[rs:dot].strip()
+            inner = code[inner_op + 1:inner_cp].strip()
+            rep = 'vx::opt_vec_%s(%s, %s)' % (mm.group(2), recv, inner)
+            # the inner closure becomes the direct argument of a `.any(`-like call: give it its ensures here
+            im = re.match(r'\|([^|]*)\|\s*(.*)$', inner, re.S)
+            if im:
+                rep = 'vx::opt_vec_%s(%s, |%s| -> (b__: bool) ensures b__ == (%s) { %s })' % (mm.group(2), recv, im.group(1), to_spec(im.group(2)), im.group(2))
+            code = code[:rs] + rep + code[outer_cp + 1:]
+            n += 1
+        self.note('opt.is_some_and(|v| v.iter().any(p)) -> vx::opt_vec_any(opt, p)', n)
+        return code
+
     # ---- R4: closures given to .all( / .any( get their body as ensures
     def pred_closures(self, code):
         n = 0
@@ -633,6 +659,12 @@ class Rewriter:
                 if not mm:
                     break
                 dot = mm.start()
+                if mode == 'replace_tail':
+                    rep = '.' + mm.expand(wrapper)
+                    code = code[:mm.start()] + rep + code[mm.end():]
+                    pos = mm.start() + len(rep)
+                    n += 1
+                    continue
                 if mode == 'replace_whole':
                     rep = mm.expand(wrapper)
                     # text of identifiers must come from the real code, not the mask (identical for identifiers)
@@ -903,6 +935,51 @@ class Rewriter:
         self.note('map_err/ok_or_else closure -> match (std definition)', n)
         return code
 
+    # ---- R12: `for (IDX, X) in RECV.iter().enumerate()` whose index only feeds format! arguments (message text)
+    #          -> `for X in &RECV`, the index expressions inside the messages replaced by 0usize
+    def enumerate_msg_only(self, code):
+        n = 0
+        while True:
+            m = mask(code)
+            mm = re.search(r'(?<![A-Za-z0-9_])for\s*\(\s*([a-z_][a-z0-9_]*)\s*,\s*([a-z_][a-z0-9_]*)\s*\)\s*in\s+', m)
+            if not mm:
+                break
+            idx, var = mm.group(1), mm.group(2)
+            j = mm.end()
+            depth = 0
+            while j < len(m):
+                ch = m[j]
+                if ch in '([':
+                    depth += 1
+                elif ch in ')]':
+                    depth -= 1
+                elif ch == '{' and depth == 0:
+                    break
+                j += 1
+            ob = j
+            cb = match_close(m, ob)
+            it_expr = code[mm.end():ob].strip()
+            r2 = re.sub(r'\s*\.\s*iter\s*\(\s*\)\s*\.\s*enumerate\s*\(\s*\)\s*$', '', it_expr)
+            if r2 == it_expr:
+                raise ExtractError('enumerate loop of unsupported shape: ' + it_expr[:60])
+            body = code[ob:cb + 1]
+            bm = mask(body)
+            # every use of idx must be inside a format!(...) call
+            spans = []
+            for fm in re.finditer(r'(?<![A-Za-z0-9_])format!\s*\(', bm):
+                op = fm.end() - 1
+                spans.append((op, match_close(bm, op)))
+            new_body = body
+            uses = [u for u in re.finditer(r'(?<![A-Za-z0-9_.])' + re.escape(idx) + r'(?![A-Za-z0-9_])(\s*\+\s*1)?', bm)]
+            for u in reversed(uses):
+                if not any(a < u.start() < b for a, b in spans):
+                    raise ExtractError('enumerate index %s is used outside message formatting' % idx)
+                new_body = new_body[:u.start()] + '0usize' + new_body[u.end():]
+            code = code[:mm.start()] + 'for %s in &%s ' % (var, r2) + new_body + code[cb + 1:]
+            n += 1
+        self.note('for (i, x) in v.iter().enumerate() with i used only in messages -> for x in &v', n)
+        return code
+
     # ---- R8: local `const NAME: &[&str] = &[...]` -> `let NAME: Vec<&'static str> = vec![...]`
     def local_const_slices(self, code):
         n = 0
@@ -922,6 +999,7 @@ class Rewriter:
 
     def apply_all(self, code, opts):
         code = self.closure_underscore(code)
+        code = self.enumerate_msg_only(code)
         if opts.get('fmtcat'):
             code = self.format_cat(code, opts['fmtcat'])
         if opts.get('maperr'):
@@ -933,6 +1011,7 @@ class Rewriter:
         if not opts.get('no_str_match'):
             code = self.str_match(code)
         if not opts.get('no_pred_closures'):
+            code = self.is_some_and_nested(code)
             code = self.pred_closures(code)
             code = self.and_then_closures(code)
         code = self.method_to_fn(code, METHOD_RULES_PRE)
@@ -1053,6 +1132,7 @@ METHOD_RULES_PRE = [
     (r'\.\s*all\s*\(', 'vx::vec_all', 'strip_iter', 'vec.iter().all->vx::vec_all'),
 ]
 METHOD_RULES = [
+    (r'\.\s*abs\s*\(\s*\)\s*<\s*([0-9.]+)', r'vx_abs_lt(\1)', 'replace_tail', 'f64.abs() < c -> vx_abs_lt(c)'),
     (r'\.\s*format\s*\(\s*"%y%m%d"\s*\)', 'vx_fmt_yymmdd()', 'rename_whole', 'chrono NaiveDate.format("%y%m%d")->vx_fmt_yymmdd'),
     (r'\.\s*format\s*\(\s*"%H%M"\s*\)', 'vx_fmt_hhmm()', 'rename_whole', 'chrono NaiveTime.format("%H%M")->vx_fmt_hhmm'),
     (r'\(\s*&\s*([A-Za-z_][A-Za-z0-9_.]*)\s+as\s+&\s*dyn\s+Any\s*\)\s*\.\s*downcast_ref\s*::\s*<\s*(?:[A-Za-z_0-9]+\s*::\s*)*([A-Za-z_0-9]+)\s*>\s*\(\s*\)', r'crate::anyx::downcast_\2(&\1)', 'replace_whole', '(&x as &dyn Any).downcast_ref::<T>()->anyx::downcast_T(&x)'),
